@@ -5,5 +5,5 @@ mkdir -p /tmp/seed
 git -C /repo worktree add --detach /tmp/seed/$id HEAD >/dev/null 2>&1 || { echo "worktree failed"; exit 2; }
 mkdir -p /tmp/seed/$id/target && cp -r /repo/target/debug /tmp/seed/$id/target/debug
 rm -rf /tmp/seed/$id/target/debug/build/bindgen-tests-*
-python3 /verif/tools/seed_prompt4.py $pid > /tmp/seed/prompt_$id.txt
+python3 /verif/tools/seed_prompt${id:4:1}.py $pid > /tmp/seed/prompt_$id.txt
 echo /tmp/seed/prompt_$id.txt
